@@ -46,6 +46,12 @@ func (c *FnCtx) special(frame *Frame, st *State, in ssa.Instruction, call *ssa.C
 			return true
 		}
 	}
+	if strings.HasPrefix(key, "sync.Locker.") || strings.HasPrefix(key, "sync.Cond.") {
+		if c.lockerCall(frame, st, in, call, key) {
+			k(st, Val{K: KTuple})
+			return true
+		}
+	}
 	if op, ok := lockCalls[key]; ok && op != "" {
 		recv := args[0]
 		a := recv.A
@@ -69,43 +75,113 @@ func (c *FnCtx) special(frame *Frame, st *State, in ssa.Instruction, call *ssa.C
 			k(st, Val{K: KTuple})
 			return true
 		}
-		c.usedLockInvs[li.PkgPath+"."+li.Type+"."+li.Mutex] = true
-		obj := a.Idx[0]
-		switch op {
-		case "lock", "rlock":
-			c.havocGuarded(st, li, obj)
-			c.assumeLockInv(st, li, obj)
-			st.held[mkey] = true
-			if op == "rlock" {
-				st.held[mkey+"#r"] = true
-			}
-			if !st.lockedOnce {
-				st.lockedOnce = true
-				if !frame.inlined && frame.contract != nil {
-					env := c.entryEnv(frame, st)
-					for _, r := range frame.contract.RequiresLocked {
-						t, err := c.evalBool(env, r.Expr)
-						if err != nil {
-							c.errs = append(c.errs, fmt.Sprintf("%s:%d: requires_locked %s: %v", r.File, r.Line, r.Label, err))
-							continue
-						}
-						st.assume(t)
-						c.note("rely: requires_locked " + r.Label + " (" + r.Text + ") is assumed to still hold when the lock is acquired")
-					}
-				}
-				st.oldHeap = copyHeap(st.heap)
-				// oldAlloc stays the allocated set at function entry: locals allocated before the
-				// Lock are not part of the caller-visible frame
-			}
-		case "unlock", "runlock":
-			c.assertLockInv(st, li, obj, in)
-			st.held[mkey] = false
-			delete(st.held, mkey+"#r")
-		}
+		c.lockOp(frame, st, li, a.Idx[0], mkey, op, in)
 		k(st, Val{K: KTuple})
 		return true
 	}
 	return false
+}
+
+// lockOp applies the monitor rule for one acquisition or release of the mutex of object obj.
+func (c *FnCtx) lockOp(frame *Frame, st *State, li *LockInv, obj, mkey, op string, in ssa.Instruction) {
+c.usedLockInvs[li.PkgPath+"."+li.Type+"."+li.Mutex] = true
+	switch op {
+	case "lock", "rlock":
+		c.havocGuarded(st, li, obj)
+		c.assumeLockInv(st, li, obj)
+		st.held[mkey] = true
+		if op == "rlock" {
+			st.held[mkey+"#r"] = true
+		}
+		if !st.lockedOnce {
+			st.lockedOnce = true
+			if !frame.inlined && frame.contract != nil {
+				env := c.entryEnv(frame, st)
+				for _, r := range frame.contract.RequiresLocked {
+					t, err := c.evalBool(env, r.Expr)
+					if err != nil {
+						c.errs = append(c.errs, fmt.Sprintf("%s:%d: requires_locked %s: %v", r.File, r.Line, r.Label, err))
+						continue
+					}
+					st.assume(t)
+					c.note("rely: requires_locked " + r.Label + " (" + r.Text + ") is assumed to still hold when the lock is acquired")
+				}
+			}
+			st.oldHeap = copyHeap(st.heap)
+			// oldAlloc stays the allocated set at function entry: locals allocated before the
+			// Lock are not part of the caller-visible frame
+		}
+	case "unlock", "runlock":
+		c.assertLockInv(st, li, obj, in)
+		st.held[mkey] = false
+		delete(st.held, mkey+"#r")
+	}
+}
+
+// mutexOwner walks back from an SSA value that denotes a lock reached through fields (for example
+// the sync.Locker loaded from t.cond.L) to the struct object that has a lock invariant for that
+// field path.
+func (c *FnCtx) mutexOwner(v ssa.Value, segs []string) (ssa.Value, *LockInv, string) {
+	for i := 0; i < 8; i++ {
+		switch x := v.(type) {
+		case *ssa.UnOp:
+			if x.Op != token.MUL {
+				return nil, nil, ""
+			}
+			v = x.X
+		case *ssa.FieldAddr:
+			pt, ok := x.X.Type().Underlying().(*types.Pointer)
+			if !ok {
+				return nil, nil, ""
+			}
+			stt, ok := pt.Elem().Underlying().(*types.Struct)
+			if !ok {
+				return nil, nil, ""
+			}
+			segs = append([]string{stt.Field(x.Field).Name()}, segs...)
+			path := strings.Join(segs, ".")
+			if li := c.findLockInv(typeName(pt.Elem()), path); li != nil {
+				return x.X, li, path
+			}
+			v = x.X
+		default:
+			return nil, nil, ""
+		}
+	}
+	return nil, nil, ""
+}
+
+// lockerCall handles sync.Locker.Lock/Unlock and sync.Cond.Wait/Broadcast/Signal on a lock that a
+// lockinv names by field path (lockinv T.cond.L ...). Wait releases the lock and re-acquires it.
+func (c *FnCtx) lockerCall(frame *Frame, st *State, in ssa.Instruction, call *ssa.CallCommon, key string) bool {
+	var root ssa.Value
+	var segs []string
+	var ops []string
+	switch key {
+	case "sync.Locker.Lock":
+		root, ops = call.Value, []string{"lock"}
+	case "sync.Locker.Unlock":
+		root, ops = call.Value, []string{"unlock"}
+	case "sync.Cond.Wait":
+		root, segs, ops = call.Args[0], []string{"L"}, []string{"unlock", "lock"}
+	case "sync.Cond.Broadcast", "sync.Cond.Signal":
+		return true
+	default:
+		return false
+	}
+	owner, li, path := c.mutexOwner(root, segs)
+	if li == nil {
+		return false
+	}
+	ov := c.val(st, owner)
+	mkey := li.PkgPath + "." + li.Type + "." + path + "@" + ov.S
+	for _, op := range ops {
+		c.lockOp(frame, st, li, ov.S, mkey, op, in)
+	}
+	if len(ops) == 2 {
+		c.note("sync.Cond.Wait: modelled as Unlock followed by Lock (spurious wake-ups included)")
+	}
+	return true
 }
 
 func (c *FnCtx) lockSelfVal(li *LockInv, obj string) (Val, *types.Package) {
@@ -314,6 +390,75 @@ func (c *FnCtx) havocGuardedByCall(st *State, call *ssa.CallCommon) {
 			}
 		}
 	}
+}
+
+// interferenceHeap returns a copy of the heap in which every lock-guarded location whose mutex is
+// not held has an arbitrary value: what other threads may have made of the shared state by now.
+// Lock invariants are not assumed for it. Used by the spec operator unlocked(e).
+func (c *FnCtx) interferenceHeap(env *SpecEnv) map[string]string {
+	h := copyHeap(env.heap)
+	hv := func(name string) {
+		h[name] = c.fresh(name, arraySort(name))
+		if c.knownArrays == nil {
+			c.knownArrays = map[string]bool{}
+		}
+		c.knownArrays[name] = true
+	}
+	for _, li := range c.eng.cs.LockInvs {
+		pkg := c.eng.pkgOf(li.PkgPath)
+		if pkg == nil {
+			continue
+		}
+		o := pkg.Scope().Lookup(li.Type)
+		if o == nil {
+			continue
+		}
+		stt := o.Type()
+		key := typeName(stt)
+		held := false
+		if env.st != nil {
+			for k, v := range env.st.held {
+				if v && strings.HasPrefix(k, key+"."+li.Mutex+"@") {
+					held = true
+				}
+			}
+		}
+		if held {
+			continue
+		}
+		for _, g := range li.Guards {
+			if strings.HasPrefix(g, "type ") || strings.HasPrefix(g, "allmem ") || strings.HasPrefix(g, "allmaps ") {
+				continue
+			}
+			contentsOnly := false
+			if strings.HasPrefix(g, "contents ") {
+				contentsOnly = true
+				g = strings.TrimSpace(strings.TrimPrefix(g, "contents "))
+			}
+			ft, ghost := c.fieldType(stt, g)
+			if ft == nil {
+				continue
+			}
+			path := g
+			if ghost {
+				path = "$" + g
+			}
+			if !contentsOnly {
+				for _, lf := range leavesOf(ft) {
+					hv(arrName("F", key, joinPath(path, lf.Path), lf.Sort))
+				}
+			}
+			if mt, ok := ft.Underlying().(*types.Map); ok {
+				mk := mapKeyOf(ft)
+				hv(arrName("D", mk, "", "Bool"))
+				hv(arrName("L", "", "", "Int"))
+				for _, lf := range leavesOf(mt.Elem()) {
+					hv(arrName("V", mk, lf.Path, lf.Sort))
+				}
+			}
+		}
+	}
+	return h
 }
 
 // checkGuardedWrite flags writes to guarded fields without holding the mutex.
